@@ -18,17 +18,17 @@ package l4wireguard
 // three reserved bytes of the type word equal the configured `zero` value.
 //@ ensures[C14] err == nil ==> matched == ((old(avail(cx)) == 148 && old(wgtype(cx)) == (m.Zero&4294967040)|1) || (old(avail(cx)) == 32 && old(wgtype(cx)) == (m.Zero&4294967040)|4))
 
+// (both parsers are inlined at their call sites, so that the matcher's frame and the round-trip
+// lemmas are proved from their bodies rather than from a summary)
 //@ func (msg *MessageInitiation) FromBytes(src []byte) (err error)
 //@ inline
 //@ requires msg != nil
 //@ safety C04
-//@ assigns[C06] all(msg)
 
 //@ func (msg *MessageTransport) FromBytes(src []byte) (err error)
 //@ inline
 //@ requires msg != nil && len(msg.Content) == 0 && cap(msg.Content) == 0 && len(src) <= 65535
 //@ safety C04
-//@ assigns[C06] all(msg)
 
 // Round-trip lemmas (C18): the Go functions in zz_lemmas_verif.go return true for all inputs.
 // (the two MessageInitiation lemmas move 148 bytes field by field: tens of seconds of solver time,
